@@ -554,8 +554,17 @@ def oracle_dssr(case):
             par, ep, es = params(spec)
             docs.append({"model": k + 1, "parameters": par})
             exps.append((ep, es))
+        # the numbers the document gives its models (1..n as NMR ensembles have, or a subset / frames counted from 0 /
+        # a re-ranked list): the request names a model by its NUMBER
+        numbers = case.get("model_numbers")
+        if numbers:
+            numbers = numbers[:len(docs)] + [max(numbers) + 1 + k for k in range(len(docs) - len(numbers))]
+            for d, num in zip(docs, numbers):
+                d["model"] = num
+            if model_arg is not None:
+                model_arg = numbers[model_arg - 1]
         doc = {"models": docs}
-        idx = 0 if model_arg is None else model_arg - 1
+        idx = 0 if case.get("model") is None else case["model"] - 1
         exp_pairs, exp_st = exps[idx]
     else:
         doc, exp_pairs, exp_st = params(case["models"][0])
@@ -604,6 +613,7 @@ def st_dssr(files):
         models = draw(st.lists(spec, min_size=1, max_size=3 if multi else 1))
         model = draw(st.one_of(st.none(), st.integers(1, len(models)))) if multi else None
         return {"kind": "dssr", "file": draw(st.sampled_from(files)), "multimodel": multi, "models": models, "model": model,
+                "model_numbers": draw(st.sampled_from([None, None, [1, 3, 4], [0, 1, 2], [3, 1, 2], [2, 1], [5, 6, 7]])) if multi else None,
                 "thin": draw(st.lists(st.integers(0, 500), max_size=6))}
 
     return build()
@@ -612,6 +622,8 @@ def st_dssr(files):
 def classify_dssr(case):
     n = case.get("_n", (0, 0))
     labs = ["dssr"] + (["multimodel"] if case.get("multimodel") else [])
+    if case.get("model_numbers") and case.get("model") is not None:
+        labs.append("model-requested-by-a-number-other-than-its-position")
     if n[0]:
         labs.append("kept-pairs")
     if n[1]:
